@@ -249,6 +249,10 @@ PROPS["C05"] = {
                    "c05::c05_foreign_cslicebox", "c05::c05_foreign_callback", "c05::c05_foreign_iterator",
                    "c10::c10_foreign_functions_used", "c05::c05_negative_twin"],
          "timeout": 1200},
+        # a generated opaque object whose vtable was made by "another module" (mock entries): every call of the host-side
+        # glue - borrowing and consuming - reaches exactly the entries captured in the object (shared with C07)
+        {"id": "foreign_vtable", "crate": "gen", "quick": ["c07::c07_caller_glue_holds_context_across_consuming_call"],
+         "cbmc_args": LEAK, "timeout": 900},
     ],
     "negative": ["c05::c05_negative_twin"],
     "bounds": "two-role model inside one build: values fabricated through their C view by a plugin role with its own function "
